@@ -5,6 +5,9 @@ Three-way comparison on every generated hypergraph x (min_size, exclude_min_size
   vs  brute-force definitions (the Lean `spec…` functions *and* an independent Python enumeration below).
 The property predicate (brute-force equalities, range, value 1 on downward-closed inputs) is evaluated on the
 implementation's own results; the Lean theorems (Props/C15.lean) state the same facts for the transcription.
+
+Fixed cases in corpus/C15/*.json run first (format: a case, {"case": …}, or {"net": …, "configs": [[min_size, excl], …]}).
+`replay(ctx, file)` runs the case(s) of one such file through build/audit, predicate, correspondence and `finish`.
 """
 import itertools
 import json
@@ -216,6 +219,78 @@ def mk_cases(nodes, edges, configs=None):
             for m, x in (configs or [(m, x) for m in (1, 2, 3) for x in (True, False)])]
 
 
+MS_WEIGHT = {1: 2, 2: 3, 3: 3, 4: 4, 5: 3, 6: 1}
+
+
+def pick_cfg(rng, edges, lo=1, eligible=0.85):
+    """one (min_size, exclude_min_size): min_size in lo..6 (weights MS_WEIGHT); with probability `eligible` it is capped so
+    that some edge has size >= min_size + exclude_min_size (the scores are then not all NaN), otherwise unrestricted"""
+    x = rng.random() < 0.5
+    top = max([len(ms) for _, ms in edges], default=0) - int(x)
+    hi = 6
+    if rng.random() < eligible and top >= lo:
+        hi = min(6, top)
+        if not x and hi > lo and rng.random() < 0.75:
+            hi -= 1  # min_size = largest edge size without exclude_min_size: the normalised edit distance is 0/0 unless sizes are mixed
+    rng_ms = list(range(lo, hi + 1))
+    m = rng.choices(rng_ms, weights=[MS_WEIGHT[k] for k in rng_ms])[0]
+    return m, x
+
+
+def has_eligible(edges, m, x):
+    return any(len(ms) >= m + int(x) for _, ms in edges)
+
+
+def gen_big(rng):
+    """1-3 large faces (4-6 nodes, rarely 7) over 5-7 nodes and most of their sub-faces above a random size: the inputs on
+    which min_size >= 4 and edges with more than 5 nodes mean something (sub-face counts, normaliser, overlaps of big faces)"""
+    from ..fn import EDGE_IDS, LABELS
+    k = rng.choice([5, 6, 6, 6, 7])
+    lab = rng.choice(LABELS[:5] + [LABELS[6]])(k)
+    rng.shuffle(lab)
+    nf = rng.choice([1, 2, 2, 3])
+    cap = k if k < 7 else rng.choice([5, 6, 6, 7])
+    faces = [rng.sample(lab, rng.randint(4, cap)) for _ in range(nf)]
+    if nf >= 2 and rng.random() < 0.5:
+        # make the faces overlap in all but one or two nodes (intersections of size >= 3)
+        base = faces[0]
+        for i in range(1, nf):
+            rest = [n for n in lab if n not in base]
+            if not rest:
+                break
+            f = list(base)
+            for _ in range(rng.randint(1, min(2, len(rest)))):
+                f[rng.randrange(len(f))] = rest.pop(rng.randrange(len(rest)))
+                if not rest:
+                    break
+            faces[i] = list(dict.fromkeys(f))
+    lo = rng.choice([1, 2, 3, 3, 4, 4]) if k < 7 else rng.choice([3, 4, 4, 5])
+    if any(len(f) >= 7 for f in faces):
+        lo = max(lo, 4)  # keeps the edge count (and the cost of the Lean brute-force spec in the driver) moderate
+    pool, seen = [], set()
+    for f in faces:
+        for r in range(lo, len(f) + 1):
+            for c in itertools.combinations(f, r):
+                if frozenset(c) not in seen:
+                    seen.add(frozenset(c)); pool.append(list(c))
+    keep = rng.choice([0.0, 0.5, 0.8, 0.9, 0.97, 1.0, 1.0])
+    es = [c for c in pool if rng.random() < keep or any(set(c) == set(f) for f in faces)]
+    if keep == 1.0 and rng.random() < 0.5 and len(es) > len(faces):
+        # a closure above `lo` with exactly one sub-face knocked out
+        cand = [i for i, c in enumerate(es) if not any(set(c) == set(f) for f in faces)]
+        if cand:
+            del es[rng.choice(cand)]
+    if rng.random() < 0.07:
+        es.append([])  # an empty edge
+    for c in es:
+        rng.shuffle(c)
+    rng.shuffle(es)
+    eid = rng.choice(EDGE_IDS)(len(es))
+    if len(set(map(repr, eid))) != len(es):
+        eid = list(range(len(es)))
+    return lab, [(eid[i], ms) for i, ms in enumerate(es)], lo
+
+
 def gen_overlap(rng):
     """2-4 large overlapping faces over <= 6 nodes plus a random part of their sub-faces (targets the bookkeeping
     of sub-faces shared between maximal faces)"""
@@ -239,7 +314,26 @@ def gen_overlap(rng):
     return lab, [(eid[i], ms) for i, ms in enumerate(es)]
 
 
-def gen_random(rng, closed_bias=0.0):
+def with_empty_edge(rng, edges):
+    """insert one empty edge (an edge without members) at a random position under a fresh ID"""
+    used = {repr(e) for e, _ in edges}
+    eid = next(i for i in (rng.choice([77, "emp"]), 77, 78, "emp", "emp2") if repr(i) not in used)
+    edges = list(edges)
+    edges.insert(rng.randint(0, len(edges)), (eid, []))
+    return edges
+
+
+def gen_random(rng, closed_bias=0.0, empty=0.1):
+    for _ in range(4):
+        nodes, edges = _gen_random(rng, closed_bias)
+        if any(len(ms) >= 2 for _, ms in edges) or rng.random() < 0.15:
+            break  # inputs without any edge of >= 2 members (all scores NaN / trivially 1): kept, but rarely
+    if rng.random() < empty:
+        edges = with_empty_edge(rng, edges)
+    return nodes, edges
+
+
+def _gen_random(rng, closed_bias=0.0):
     if rng.random() < 0.3:
         return gen_overlap(rng)
     from ..fn import LABELS
@@ -296,9 +390,15 @@ def shrink(case, site, cls):
     return cur
 
 
+_SHRUNK = {}
+
+
 def report(ctx, case, site, cls, detail):
-    """record a predicate failure with a shrunk, replayable case (detail recomputed on the shrunk case)"""
-    small = shrink(case, site, cls)
+    """record a predicate failure with a shrunk, replayable case (detail recomputed on the shrunk case); only the first few
+    failures of a clause are shrunk (shrinking re-runs the implementation many times), later ones are recorded as they are -
+    `ctx.violation` keeps the smallest witness of each (site, class)"""
+    _SHRUNK[(site, cls)] = _SHRUNK.get((site, cls), 0) + 1
+    small = shrink(case, site, cls) if _SHRUNK[(site, cls)] <= 4 else case
     for s2, k2, d2 in pred(small, safe_impl(small)):
         if s2 == site and k2 == cls:
             detail = d2
@@ -340,7 +440,7 @@ def trie_impl(case):
 
 # ----------------------------------------------------------------------------- run
 
-def evaluate(ctx, cases, label):
+def evaluate(ctx, cases, label, verbose=False):
     """implementation + predicate on every case, then the model; returns the disagreements"""
     results = []
     for c in cases:
@@ -360,7 +460,12 @@ def evaluate(ctx, cases, label):
             sizes = sorted(len(ms) for _, ms in c["net"]["edges"])
             if r.get("out") == "ok" and sizes and sizes[-1] >= 2 and (r["sed_raw"] != "nan"):
                 ctx.nontrivial.add(jhash([c, r]))
+            if sizes and sizes[0] == 0:
+                ctx.stats["cases with an empty edge"] += 1
             if r.get("out") == "ok":
+                ctx.stats["max_edge_size=%d" % (sizes[-1] if sizes else 0)] += 1
+                if r["sed_raw"] == "nan":
+                    ctx.stats["no eligible maximal edge (sed NaN)"] += 1
                 for k in ("sed_norm", "sf"):
                     ctx.stats[f"{k}:" + ("nan" if r[k] == "nan" else "0" if r[k] == 0 else "1" if r[k] == 1 else "(0,1)")] += 1
         for site, cls, detail in pred(c, r):
@@ -373,10 +478,16 @@ def evaluate(ctx, cases, label):
             raise Infra(f"model C15 rejected request (harness defect): {json.dumps(c)[:300]}")
         if m.get("out") == "unmodelled":
             ctx.stats["unmodelled"] += 1
+            if verbose:
+                print(json.dumps({"case": c, "impl": r, "model": "unmodelled (outside the domain of the Lean model)",
+                                  "predicate_failures": pred(c, r)}, indent=1, default=repr))
             continue
         ctx.traces += 1
         mc = canon(m)
         d = compare(c, r, mc)
+        if verbose:
+            print(json.dumps({"case": c, "impl": r, "model": mc, "brute": brute(c) if c["min_size"] >= 1 else None,
+                              "predicate_failures": pred(c, r), "differs_from_model": d}, indent=1, default=repr))
         if d:
             dis.append((c, r, mc, d))
             ctx.stats["disagree:impl-vs-transcription"] += 1
@@ -397,8 +508,7 @@ def evaluate(ctx, cases, label):
     return dis
 
 
-def run_trie(ctx, n):
-    cases = trie_cases(ctx.rng, n)
+def run_trie(ctx, cases):
     resps = run_driver("C15", cases) if cases else []
     bad = 0
     for c, m in zip(cases, resps):
@@ -418,24 +528,72 @@ def run_trie(ctx, n):
     return bad
 
 
+def load_cases(path):
+    """cases of one corpus / replay file: a bare case, {"case": …} (replay files written by `finish`), or
+    {"net": …, "configs": [[min_size, exclude_min_size], …]} (one network under several settings)"""
+    j = json.load(open(path))
+    if isinstance(j, dict) and "case" in j:
+        j = j["case"]
+    if not isinstance(j, dict):
+        raise Infra(f"{path}: not a C15 case")
+    if "configs" in j:
+        return [{"f": "simpliciality", "net": j["net"], "min_size": int(m), "exclude_min_size": bool(x)} for m, x in j["configs"]]
+    j = {k: v for k, v in j.items() if k not in ("replay_py", "comment")}
+    if j.get("f") not in ("simpliciality", "trie"):
+        raise Infra(f"{path}: not a C15 case (f = {j.get('f')!r})")
+    return [j]
+
+
 def corpus_cases():
     d = os.path.join(VERIF, "corpus", "C15")
     out = []
     if os.path.isdir(d):
         for f in sorted(os.listdir(d)):
             if f.endswith(".json"):
-                c = json.load(open(os.path.join(d, f)))
-                c = c.get("case", c)
-                c.pop("replay_py", None)
-                out.append(c)
+                out += load_cases(os.path.join(d, f))
     return out
+
+
+def describe(ctx):
+    ctx.extra["float_rule"] = "|x - p/q| <= 1e-9*max(1,|p/q|); NaN <-> undefined"
+    ctx.rule = ("fixed corpus first (corpus/C15: closures and partial closures of 4-7 node faces, three overlapping 5-node faces, empty edges, min_size 1-6, both "
+                "exclude_min_size); hypergraphs without repeated edges: small scope (<=4 nodes, <=3 edges; exhaustive in the thorough tier), random ones on "
+                "<=6 nodes (edge size <=5, isolated nodes, int or str labels, shuffled node order, mixed edge IDs, 10% with an empty edge), 35% of them (partial) downward closures, "
+                "and 'big-face' inputs (1-3 faces of 4-7 nodes over 5-7 nodes with most sub-faces above a random size, often a closure with one sub-face "
+                "knocked out); x min_size 1..6 (weights 2:3:3:4:3:1, in 85% of the draws capped so that an eligible edge exists) x exclude_min_size x normalize; "
+                "plus repeated-edge and min_size=0 inputs for the correspondence only and direct Trie probes (shuffled words/queries vs set membership); "
+                "non-trivial = distinct (input, result) with an edge of >= 2 members and an eligible maximal edge (sed not NaN); the share of cases whose "
+                "scores are NaN is reported in coverage.nan_share")
+    ctx.assumptions = ["node labels all int or all str (Python's sorted() raises on mixed labels): mixed / non-orderable labels are outside the model and never generated",
+                       "empty edges are inside the model, the theorems and the predicate (EdgeView.maximal treats an empty edge as contained in every edge "
+                       "since fix 8eb4626; about 10% of the random inputs carry one)",
+                       "min_size >= 1 for the predicate and the theorems; min_size = 0 is checked for the correspondence implementation/transcription ONLY "
+                       "(with min_size = 0 the empty set is enumerated as a sub-face and counted once per non-adjacent maximal face; no definition is compared there)",
+                       "repeated edges (multi-edges): correspondence only, as the property statement excludes them (the theorems hold for them too)",
+                       "iteration order of Python sets is not modelled: every consumer counts, collects into a set, or takes all()",
+                       "CONVENTION ADOPTED FROM THE CODE: mean_face_edit_distance returns 0 (not NaN) when there is no eligible maximal edge, hence "
+                       "face_edit_simpliciality = 1 there (e.g. on a hypergraph without edges); the Lean spec (specMFED) and the Python enumeration adopt this "
+                       "convention, and theorem closed_one_fes ('always 1 on downward-closed inputs') rests on it. The property text allows 'in [0,1] or NaN', "
+                       "so this is no violation, but 'average over maximal edges' of an empty family is a choice, not a consequence"]
+    n = sum(v for k, v in ctx.stats.items() if k.startswith("sed_norm:"))
+    if n:
+        ctx.extra["nan_share"] = {"scored_cases(min_size>=1, no exception)": n,
+                                  "sed_norm_nan": round(ctx.stats["sed_norm:nan"] / n, 3), "sf_nan": round(ctx.stats["sf:nan"] / n, 3),
+                                  "sed_raw_nan(no eligible maximal edge)": round(ctx.stats["no eligible maximal edge (sed NaN)"] / n, 3)}
+
+
+TRUSTED = TRUSTED_COMMON + [
+    "scipy.special.binom modelled as the binomial coefficient; numpy NaN as `undefined`; floats compared to exact rationals by the float rule",
+    "frozenset equality modelled as equality of sorted tuples (proved equivalent to set equality on orderable labels: sorted_eq_iff)",
+    "the independent Python enumeration `brute()` in harness/props/c15.py (the property's definitions, written from the statement)"]
 
 
 def run(ctx):
     ok = build_and_audit(ctx, "XgiModel.Props.C15", ["XgiModel.C15.Drive"])
     rng = ctx.rng
     dis = []
-    cc = corpus_cases()
+    cc = [c for c in corpus_cases() if c["f"] == "simpliciality"]
+    ctx.stats["corpus_cases"] = len(cc)
     if cc:
         dis += evaluate(ctx, cc, "corpus")
     # exhaustive small scope
@@ -449,34 +607,48 @@ def run(ctx):
         small = list(all_small_hypergraphs(4, 3))
     cases = []
     for nodes, edges in small:
-        cases += mk_cases(nodes, edges)
+        cs = mk_cases(nodes, edges)
+        if ctx.quick:
+            # quick tier: every setting under which some edge is eligible, the all-NaN settings only now and then
+            cs = [c for c in cs if has_eligible(edges, c["min_size"], c["exclude_min_size"]) or rng.random() < 0.2]
+        cases += cs
         if not ctx.quick or rng.random() < 0.3:
-            cases += mk_cases(*relabel(nodes, edges, lambda n: STR[n]), configs=None if not ctx.quick else [(rng.choice([1, 2, 3]), rng.random() < 0.5)])
+            cases += mk_cases(*relabel(nodes, edges, lambda n: STR[n]), configs=None if not ctx.quick else [pick_cfg(rng, edges)])
+        if not ctx.quick or rng.random() < 0.15:
+            cases += mk_cases(nodes, with_empty_edge(rng, edges), configs=[pick_cfg(rng, edges)])
     dis += evaluate(ctx, cases, "small-scope")
     # random hypergraphs on <= 6 nodes, a third of them (partial) downward closures
     nrand = ctx.n(250, 8000)
     cases = []
     for i in range(nrand):
         nodes, edges = gen_random(rng, closed_bias=0.35)
-        cfg = None if (not ctx.quick and i % 4 == 0) else [(rng.choice([1, 2, 2, 3]), rng.random() < 0.5) for _ in range(2)]
+        cfg = None if (not ctx.quick and i % 4 == 0) else list(dict.fromkeys(pick_cfg(rng, edges) for _ in range(2)))
+        cases += mk_cases(nodes, edges, cfg)
+    # big faces: 4-7 node faces with most of their sub-faces; min_size from the level above which sub-faces were kept upwards
+    for i in range(ctx.n(100, 1500)):
+        nodes, edges, lo = gen_big(rng)
+        cfg = list(dict.fromkeys([pick_cfg(rng, edges, lo=min(lo, 4)), pick_cfg(rng, edges, lo=min(lo + 1, 4))]))
         cases += mk_cases(nodes, edges, cfg)
     # repeated edges: correspondence only (the model transcribes the code there too; the property does not speak about them)
     for i in range(ctx.n(20, 400)):
         nodes, edges = gen_hypergraph(rng, max_nodes=5, max_edges=5, max_size=4, multi=True, uniform_labels=True)
-        cases += mk_cases(nodes, edges, [(rng.choice([1, 2, 3]), rng.random() < 0.5)])
-    # min_size outside {1,2,3}: 4 (predicate applies) and 0 (correspondence only)
-    for i in range(ctx.n(20, 400)):
+        cases += mk_cases(nodes, edges, [pick_cfg(rng, edges)])
+    # min_size = 0: correspondence only
+    for i in range(ctx.n(12, 300)):
         nodes, edges = gen_random(rng, closed_bias=0.3)
-        cases += mk_cases(nodes, edges, [(rng.choice([0, 4]), rng.random() < 0.5)])
+        cases += mk_cases(nodes, edges, [(0, rng.random() < 0.5)])
     for k in range(0, len(cases), 20000):
         dis += evaluate(ctx, cases[k:k + 20000], "random")
-    bad = run_trie(ctx, ctx.n(100, 3000))
+    bad = run_trie(ctx, trie_cases(ctx.rng, ctx.n(100, 3000)))
 
     def search():
         # harder search on the implementation alone: predicate on many more inputs biased to overlapping maximal faces
         for i in range(ctx.n(1500, 30000)):
-            nodes, edges = gen_random(rng, closed_bias=0.3)
-            for c in mk_cases(nodes, edges, [(rng.choice([1, 2, 3]), rng.random() < 0.5)]):
+            if i % 5 == 0:
+                nodes, edges, _ = gen_big(rng)
+            else:
+                nodes, edges = gen_random(rng, closed_bias=0.3)
+            for c in mk_cases(nodes, edges, [pick_cfg(rng, edges)]):
                 r = safe_impl(c)
                 ctx.evaluations += 1
                 ctx.stats["cases:targeted-search"] += 1
@@ -486,30 +658,31 @@ def run(ctx):
     conclude(ctx, ok and not bad and not any("spec differ" in b for b in ctx.broken), dis, search)
     ctx.exhaustive = not ctx.quick
     ctx.extra["exhaustive_space"] = ("all hypergraphs with <= 3 distinct non-empty edges over 4 nodes (576), int and str labels, x min_size in {1,2,3} "
-                                     "x exclude_min_size x normalize" if not ctx.quick else "sample of that space (quick tier)")
-    ctx.extra["float_rule"] = "|x - p/q| <= 1e-9*max(1,|p/q|); NaN <-> undefined"
-    ctx.rule = ("hypergraphs without repeated edges: exhaustive small scope (<=4 nodes, <=3 edges) and random ones on <=6 nodes (edge size <=5, "
-                "isolated nodes, int or str labels, shuffled node order, mixed edge IDs), 35% of them (partial) downward closures; "
-                "x min_size in {1,2,3} (a few with 4) x exclude_min_size x normalize; plus repeated-edge and min_size=0 inputs for the correspondence only "
-                "and direct Trie probes (shuffled words/queries vs set membership); "
-                "non-trivial = distinct (input, result) with an edge of >= 2 members and an eligible maximal edge")
-    ctx.assumptions = ["node labels all int or all str (Python's sorted() raises on mixed labels); no empty edge (EdgeView.maximal raises, F6)",
-                       "min_size >= 1 for the predicate and the theorems (with min_size = 0 the empty set is enumerated as a sub-face and counted once per "
-                       "non-adjacent maximal face; the transcription still agrees with the code there and is compared, the definitions are not)",
-                       "iteration order of Python sets is not modelled: every consumer counts, collects into a set, or takes all()",
-                       "mean_face_edit_distance returns 0 (not NaN) when there is no eligible maximal edge; the brute-force definition adopts that convention"]
-    return finish(ctx, trusted_base=TRUSTED_COMMON + [
-        "scipy.special.binom modelled as the binomial coefficient; numpy NaN as `undefined`; floats compared to exact rationals by the float rule",
-        "frozenset equality modelled as equality of sorted tuples (proved equivalent to set equality on orderable labels: sorted_eq_iff)"])
+                                     "x exclude_min_size x normalize (plus, for each, one variant with an added empty edge under a random setting)" if not ctx.quick else "sample of that space (quick tier)")
+    describe(ctx)
+    return finish(ctx, trusted_base=TRUSTED)
 
 
 def replay(ctx, path):
-    c = json.load(open(path))
-    c = c.get("case", c)
-    c.pop("replay_py", None)
-    r = safe_impl(c)
-    m = canon(run_driver("C15", [c])[0])
-    fails = pred(c, r)
-    print(json.dumps({"case": c, "impl": r, "model": m, "brute": brute(c), "predicate_failures": fails,
-                      "differs_from_model": compare(c, r, m) if m.get("out") == "ok" else None}, indent=1, default=repr))
-    return 1 if fails else 0
+    """re-run the case(s) of one replay / corpus file through the same path as `run`: build + audit, implementation, predicate,
+    model correspondence, verdict by `conclude`/`finish` (known findings apply; exit 1 on a predicate failure, and also on a
+    model disagreement or a broken obligation, then as `no-failing-input-found`).  The evidence record of a replay goes to
+    out/replay-evidence-C15.json; evidence/C15.json (the record of the last full run) is not touched."""
+    from .. import core
+
+    def _write(prop, ev):
+        os.makedirs(core.OUT, exist_ok=True)
+        with open(os.path.join(core.OUT, f"replay-evidence-{prop}.json"), "w") as f:
+            json.dump(core.jsonable(ev), f, indent=1)
+    core.write_evidence = _write
+    cases = load_cases(path)
+    ok = build_and_audit(ctx, "XgiModel.Props.C15", ["XgiModel.C15.Drive"])
+    simp = [c for c in cases if c["f"] == "simpliciality"]
+    tries = [c for c in cases if c["f"] == "trie"]
+    dis = evaluate(ctx, simp, "replay", verbose=True) if simp else []
+    bad = run_trie(ctx, tries) if tries else 0
+    conclude(ctx, ok and not bad and not any("spec differ" in b for b in ctx.broken), dis, None)
+    describe(ctx)
+    ctx.rule = f"replay of {os.path.relpath(os.path.abspath(path), VERIF)}: {len(cases)} case(s)"
+    ctx.extra["replay_of"] = os.path.abspath(path)
+    return finish(ctx, trusted_base=TRUSTED)
